@@ -501,8 +501,9 @@ def run_script(R, steps):
         if isinstance(spec, dict):
             n = spec["ref"]
             return (objs.get(n), tname.get(n, "?"))
-        o = ARG_TYPES[tn](bytes.fromhex(spec))
-        objs[name], want[name], tname[name] = o, bytes.fromhex(spec), tn
+        b = b"" if spec in ("", "-") else bytes.fromhex(spec)
+        o = ARG_TYPES[tn](b)
+        objs[name], want[name], tname[name] = o, b, tn
         return (o, tn)
 
     for idx, st in enumerate(steps):
@@ -543,6 +544,9 @@ def run_script(R, steps):
             if r is None:
                 r = call(fn, a1) if nomask else call(fn, a1, a2)
             in_domain = t1 in OCTET_STRINGS and t2 in OCTET_STRINGS
+            if v1 is None or v2 is None or len(v1) != (9 if op == "generate" else 12) or len(v2) != 3:
+                res["skipped"] += 1  # malformed length: outside the property; what matters is what the next calls answer
+                continue
             desc = f"step {idx}: {op}({t1} {hex_str(v1)}, {'default mask' if nomask else t2 + ' ' + hex_str(v2)})"
             if isinstance(r, str):
                 if in_domain:
@@ -605,7 +609,7 @@ def make_scripts(rng, std, n, pool):
         return rng.choice(("pos", "pos", "kw"))
 
     def G(d, dtype, m, mtype, name):
-        if isinstance(m, bytes) and not any(m) and rng.random() < 0.3:
+        if isinstance(m, bytes) and len(m) == 3 and not any(m) and rng.random() < 0.3:
             m = None  # default mask argument
         return {"op": "generate", "data": d if isinstance(d, dict) else hex_str(d), "dtype": dtype,
                 "mask": m if (m is None or isinstance(m, dict)) else hex_str(m), "mtype": mtype, "call": cs(), "as": name}
@@ -626,7 +630,7 @@ def make_scripts(rng, std, n, pool):
     for i in range(n):
         d, m = rmsg(), rmask()
         word = d + xor_b(ref_parity(d), m)
-        t = i % 6
+        t = i % 7
         if t == 0:  # edit the returned word in place, ask again
             x = rxor()
             bad = apply_xor(word, x)
@@ -658,6 +662,13 @@ def make_scripts(rng, std, n, pool):
             d3 = bytearray(d); d3[0] ^= rng.randrange(1, 256)
             d4 = bytes(d[:8]) + bytes([d[8] ^ 0x80])
             rel += [(bytes(d2), m), (bytes(d3), m), (d4, m), (bytes(x ^ 255 for x in d), m), (d[::-1], m), (d, bytes(3)), (d, m[::-1])]
+            # relatives that collide under a sloppy cache key: same multiset / sum / xor of octets, same length-8 prefix or suffix
+            i1, i2 = rng.sample(range(9), 2)
+            d5 = bytearray(d); d5[i1], d5[i2] = d5[i2], d5[i1]
+            d6 = bytearray(d); d6[i1] = (d6[i1] + 1) & 255; d6[i2] = (d6[i2] - 1) & 255
+            d7 = bytearray(d); d7[i1] ^= 0x55; d7[i2] ^= 0x55
+            rel += [(bytes(d5), m), (bytes(d6), m), (bytes(d7), m), (d[1:] + d[:1], m), (bytes([d[0] ^ 1]) + d[1:], m), (d, m[1:] + m[:1])]
+            rel = list(dict.fromkeys(rel))
             rng.shuffle(rel)
             s = [G(dd, dt(), mm, mt(), f"r{j}") for j, (dd, mm) in enumerate(rel)]
             s += [G(d, dt(), m, mt(), "again"), C(word, dt(), m, mt())]
@@ -668,6 +679,23 @@ def make_scripts(rng, std, n, pool):
             s = [C(bad1, dt(), m, mt()), G(d, dt(), m, mt(), "a"), C(word, dt(), m, mt()), C(bad2, dt(), m, mt()), C(word, dt(), m, mt()),
                  G(d, dt(), m2, mt(), "b"), C(word, dt(), m2, mt()), C(R_("b"), "-", m2, mt()), C(R_("b"), "-", m, mt()), C(R_("a"), "-", m, mt())]
             lab = "check-generate-interleaved"
+        elif t == 5:  # calls that fail (malformed length, a type the code rejects half-way) must leave nothing behind
+            junk = []
+            for _ in range(rng.randrange(1, 4)):
+                k = rng.randrange(5)
+                if k == 0:
+                    junk.append(G(d[: rng.choice((0, 1, 8))], dt(), m, mt(), None))
+                elif k == 1:
+                    junk.append(G(d + bytes([rng.randrange(256)] * rng.choice((1, 3))), dt(), m, mt(), None))
+                elif k == 2:
+                    junk.append(C(word[: rng.choice((0, 9, 11))], dt(), m, mt()))
+                elif k == 3:
+                    junk.append(G(d, rng.choice(("list", "tuple", "memoryview")), m, mt(), None))
+                else:
+                    junk.append(G(d, dt(), m[: rng.choice((0, 1, 2))] if rng.random() < 0.5 else m + m, mt(), None))
+            bad = apply_xor(word, rxor("any"))
+            s = junk[:1] + [G(d, dt(), m, mt(), "a")] + junk[1:] + [C(word, dt(), m, mt()), C(bad, dt(), m, mt()), G(d, dt(), m, mt(), "b")]
+            lab = "after-failed-call"
         else:  # argument types / call styles only
             w = rng.choice((word, apply_xor(word, rxor("any"))))
             s = [G(d, rng.choice(list(ARG_TYPES)), m, rng.choice(list(ARG_TYPES)), "a"), C(w, rng.choice(list(ARG_TYPES)), m, rng.choice(list(ARG_TYPES))),
@@ -837,6 +865,22 @@ def run(ctx):
     # prescribed LFSR register mid-way (each class has probability 2^-24 .. 2^-8 under random sampling)
     alg = algebraic_msgs(rng, [m for _, m in masks] + [zero], ctx.thorough(), scale=ctx.boost)
     msgs += alg
+    # special-looking messages and masks a guard could single out: constant messages under every mask, runs of 00 / ff
+    # at the start / middle / end, masks with zero / ff / single-bit octets
+    smasks = [bytes.fromhex(h) for h in ("000001", "010000", "000100", "00ff00", "ff00ff", "ffffff", "800000", "000080", "969600", "009999", "999996", "969699", "7f7f7f", "808080")]
+    for v in (0, 255, 1, 0x96, 0x99, rng.randrange(256)):
+        for m in [mm for _, mm in masks] + [zero, b"\xff\xff\xff", bytes([v] * 3)]:
+            msgs.append((bytes([v] * 9), m, "constant"))
+    for _ in range(ctx.budget(60, 600)):
+        d = bytearray(rng.randrange(256) for _ in range(9))
+        a = rng.randrange(9)
+        b = rng.randrange(a + 1, 10)
+        fill = rng.choice((0, 0, 255))
+        d[a:b] = bytes([fill] * (b - a))
+        msgs.append((bytes(d), rng.choice(masks + [("zero", zero)])[1], "run-of-00/ff"))
+    for m in smasks:
+        for _ in range(ctx.budget(2, 10)):
+            msgs.append((bytes(rng.randrange(256) for _ in range(9)), m, "structured-mask"))
 
     gen_pairs, chk_pairs = [], []
     all_masks = [m for _, m in masks] + [zero]
@@ -893,6 +937,10 @@ def run(ctx):
         ps = rng.sample(range(12), 3)
         errs.append(bytes(v if i in ps else 0 for i in range(12)))
         errs.append(bytes((1 << rng.randrange(8)) if i in ps[:2] else 0 for i in range(12)))
+        if idx < 4 or idx % 97 == 0 or (origin.startswith("alg:") and idx % 31 == 0):
+            # every single-bit error (a comparison that ignores one bit of one octet), all 96
+            errs += [bytes((1 << bit) if i == p else 0 for i in range(12)) for p in range(12) for bit in range(8)]
+            ctx.count("errors:all-96-single-bit")
         deep = ctx.thorough() and origin in ("corpus", "random") and n_deep < 12
         if deep:
             n_deep += 1
@@ -1007,6 +1055,24 @@ def run(ctx):
             w = w[:9] + xor_b(ref_parity(w[:9]), m)  # accepted: zip stops after three mask octets
         ood.append(("check(malformed length)", f"rs.check {hex_str(w)} {hex_str(m)}", out_chk(call(R.check, w, m))))
         ctx.count(f"out-of-domain:data{ld}/mask{lm}/word{lw}")
+
+    # ------------------------------------------------------------------ after everything above: nothing has worn off
+    # (class-level tables / scratch state edited by some call): all products once more, the captured words, the first
+    # messages of the run once more
+    bad = 0
+    for a in range(256):
+        for b in range(256):
+            r = eval_mul(R, a, b)
+            if r is not None:
+                bad += 1
+                if bad <= 3:
+                    ctx.fail("mul", {"a": a, "b": b, "when": "at the end of the run"}, r[0] + " (at the end of the run; it was re-verified after all other calls)", expected=r[1], actual=r[2])
+    ctx.count("final-state:products", 65536)
+    for d, m, origin in msgs[:40]:
+        r = eval_generate(R, d, m)
+        ctx.count("final-state:messages")
+        if r is not None:
+            ctx.fail("generate", {"data": hex_str(d), "mask": hex_str(m)}, r[0] + " (at the end of the run)", expected=r[1], actual=r[2])
 
     if not ctx.search_only and ctx.driver_ok:
         ctx.correspond("generate", gen_pairs)
